@@ -22,7 +22,7 @@ type FileSpec struct {
 	// import spellings
 	CtxAlias string `json:"ctxalias,omitempty"` // alias for "context" ("" = plain)
 	CffAlias string `json:"cffalias,omitempty"` // alias for go.uber.org/cff
-	Layout   int    `json:"layout,omitempty"`   // bit 0: CRLF line endings, bit 1: no newline at the end of the file, bit 2: //go:generate and a doc comment between the constraint and the package clause, bit 3: no blank line between a //go:build line and the package clause
+	Layout   int    `json:"layout,omitempty"`   // bit 0: CRLF line endings, bit 1: no newline at the end of the file, bit 2: //go:generate and a doc comment between the constraint and the package clause, bit 3: no blank line between a //go:build line and the package clause, bit 4: //line directives around the package clause (the file comes from a preprocessor)
 	OddImp   int    `json:"oddimp,omitempty"`   // 1: imports vcase/odd/v2 (package odd), 2: math/rand/v2 (package rand), 3: vcase/twin/v3 (package debug), all without an explicit name
 	TimeImp  string `json:"timeimp,omitempty"`  // "", "plain" (imports time), "alias" (tm "time"), "collide" (another package imported as time)
 }
@@ -861,7 +861,17 @@ func RenderFileAs(f *FileSpec, pkgAuto bool, regSuffix string) (src, side string
 		x.f("")
 		x.f("// Package p is documented here, right above the clause.")
 	}
+	if f.Layout&16 != 0 && f.Layout&8 == 0 {
+		// the file was produced by a preprocessor: a //line directive attributes
+		// the package clause to the template, a second one the rest to this
+		// file again - with other line numbers and, as always after a
+		// directive without a column, no column information
+		x.f("//line %s.in:9", f.Name)
+	}
 	x.f("package p")
+	if f.Layout&16 != 0 && f.Layout&8 == 0 {
+		x.f("//line %s:40", f.Name)
+	}
 	x.f("")
 	x.f("import (")
 	imp := func(alias, path string) {
